@@ -148,9 +148,17 @@ Definition obs_reach (rk : kind) (o : sop) (ob : sobs) : N :=
   let e := obs_extent rk o ob in
   if o_glen ob =? GUARD_PANIC then e else N.max e (o_glen ob).
 
+(* i-th region; structural recursion on the list, so that an absurd index taken from a trace
+   token costs nothing (no conversion of a token to a unary nat anywhere in this file) *)
+Fixpoint nth_region (l : list (N * N)) (i : N) {struct l} : option (N * N) :=
+  match l with
+  | [] => None
+  | x :: r => if i =? 0 then Some x else nth_region r (i - 1)
+  end.
+
 Definition containedb (c : case01) (g : geom) (rk : kind) (o : sop) (ob : sobs) : bool :=
   if kind_eqb (g_kind g) KGMem then
-    match nth_error (c_regions c) (N.to_nat (o_ridx ob)) with
+    match nth_region (c_regions c) (o_ridx ob) with
     | Some (_, sz) => o_off ob + obs_reach rk o ob <=? sz
     | None => false
     end
